@@ -124,3 +124,37 @@ def check_c01(io, time_budget=120):
         # sole reference for the python side: the ciphertext came from dryoc, libsodium already opened it online
         return (got is not None and got.hex() == d["msg"], None if got is None else got.hex()[:64])
     return _run(io, {"secretbox": sb, "box": bx, "seal": sl}, time_budget, "C01")
+
+
+def check_c03(io, time_budget=120):
+    def hist(d):
+        k0, n0 = _b(d["k0"]), _b(d["nonce0"])
+        push = M.SecretStream(k=k0, nonce=n0)
+        pull = M.SecretStream(k=k0, nonce=n0)
+        queue = []
+        for i, op in enumerate(d["ops"]):
+            if op["op"] == "push":
+                ad = _b(op["ad"]) if op["ad"] is not None else None
+                ct = push.push(_b(op["msg"]), ad, op["tag"])
+                if ct.hex() != op["ct"]:
+                    return (False, "op %d: push ciphertext %s.." % (i, ct.hex()[:48]))
+                if push.k.hex() != op["k"] or push.nonce.hex() != op["nonce"]:
+                    return (False, "op %d: push state k=%s nonce=%s" % (i, push.k.hex(), push.nonce.hex()))
+                queue.append(("ct", ct, ad, _b(op["msg"]), op["tag"]))
+            elif op["op"] == "rekey":
+                push.rekey()
+                if push.k.hex() != op["k"] or push.nonce.hex() != op["nonce"]:
+                    return (False, "op %d: state after rekey" % i)
+                queue.append(("rekey",))
+            elif op["op"] == "pull":
+                while queue and queue[0][0] == "rekey":
+                    queue.pop(0)
+                    pull.rekey()
+                _, ct, ad, msg, tag = queue.pop(0)
+                r = pull.pull(ct, ad)
+                if r is None or r[0] != msg or r[1] != tag:
+                    return (False, "op %d: python pull rejected / differs" % i)
+                if pull.k.hex() != op["k"] or pull.nonce.hex() != op["nonce"]:
+                    return (False, "op %d: pull state k=%s nonce=%s" % (i, pull.k.hex(), pull.nonce.hex()))
+        return (True, None)
+    return _run(io, {"stream_history": hist}, time_budget, "C03")
